@@ -41,6 +41,13 @@ CONSTANTS Honest, Byz,   \* node numbers 1..N, disjoint
           QNum,          \* quorum fraction in thousandths (685 in the code)
           Blocks, MaxI,
           Lock,          \* "asCoded" | "carry"
+          ByzMode,       \* "explicit": Byzantine votes are delivered and tallied like any other vote;
+                         \* "help": they are not stored -- the adversary lends the Byzantine weight to a (kind, block) at a node
+                         \* whenever that completes a quorum (exact here: a node reacts at most once per kind and index, and an
+                         \* equivocating Byzantine sender never helps itself by being caught)
+          TimerOrder,    \* TRUE: an index ends only after the node's own step Precommit (the local timer order: the timeout of an
+                         \* index is longer than its steps); FALSE: also at any earlier moment (index change by a quorum of other
+                         \* nodes' next-index votes, RoundIndexChangeEvent)
           Sync           \* partially synchronous period (liveness configuration)
 
 Nodes == Honest \cup Byz
@@ -79,15 +86,15 @@ SetMarked(x, b) ==
    ELSE [x EXCEPT !.nv = IF Lock = "carry" THEN @ ELSE b]
 
 \* judgeVoteCount :282, precommit quorum: commit
-JudgePrecommit(x, b) ==
-   IF x.cm = Nil /\ Weight(x, "Precommit", b) >= Q THEN [x EXCEPT !.cm = b, !.cmI = x.idx] ELSE x
+JudgePrecommit(x, b, extra) ==
+   IF x.cm = Nil /\ Weight(x, "Precommit", b) + extra >= Q THEN [x EXCEPT !.cm = b, !.cmI = x.idx] ELSE x
 \* judgeVoteCount, prevote quorum: own precommit (once), which enters the own tally
-JudgePrevote(x, n, b) ==
-   IF x.cm = Nil /\ ~x.pc /\ Weight(x, "Prevote", b) >= Q
+JudgePrevote(x, n, b, extra) ==
+   IF x.cm = Nil /\ ~x.pc /\ Weight(x, "Prevote", b) + extra >= Q
    THEN LET x1 == [x EXCEPT !.pc = TRUE,
                             !.first["Precommit"][n] = IF @ = Nil THEN b ELSE @,
                             !.out = @ \cup {[from |-> n, k |-> "Precommit", i |-> x.idx, b |-> b]}]
-        IN SetMarked(JudgePrecommit(x1, b), b)
+        IN SetMarked(JudgePrecommit(x1, b, 0), b)
    ELSE x
 
 \* processVoteMsg :508 for a vote of the current index (addrVoteInfo / newVote)
@@ -95,7 +102,7 @@ Receive(x, n, m) ==
    LET f == x.first[m.k][m.from] IN
    IF m.k = "Prevote" /\ x.pc THEN x     \* reduction: the prevote tally is not read any more once the node has precommitted
    ELSE IF f = Nil THEN LET x1 == [x EXCEPT !.first[m.k][m.from] = m.b] IN
-                   IF m.k = "Prevote" THEN JudgePrevote(x1, n, m.b) ELSE JudgePrecommit(x1, m.b)
+                   IF m.k = "Prevote" THEN JudgePrevote(x1, n, m.b, 0) ELSE JudgePrecommit(x1, m.b, 0)
    ELSE IF f = m.b \/ m.from \in x.dbl[m.k] THEN x
    ELSE [x EXCEPT !.dbl[m.k] = @ \cup {m.from}]            \* equivocator: its first vote no longer counts
 
@@ -104,7 +111,14 @@ Best(S) == CHOOSE b \in S : \A c \in S : Pri[c] <= Pri[b]
 Put(n, x) == /\ nd' = [nd EXCEPT ![n] = [x EXCEPT !.out = {}]]
              /\ msgs' = msgs \cup x.out
 
-ByzVotes == [from : Byz, k : K2, i : 1..MaxI, b : Blocks]
+ByzVotes == IF ByzMode = "explicit" THEN [from : Byz, k : K2, i : 1..MaxI, b : Blocks] ELSE {}
+\* the adversary completes a quorum for (k, b) at node n with the Byzantine members' votes
+ByzHelp(n, k, b) == LET x == nd[n] IN
+   /\ ByzMode = "help" /\ Byz # {} /\ x.cm = Nil
+   /\ Weight(x, k, b) < Q /\ Weight(x, k, b) + Sum(Byz) >= Q
+   /\ (k = "Prevote") => ~x.pc
+   /\ Put(n, IF k = "Prevote" THEN JudgePrevote(x, n, b, Sum(Byz)) ELSE JudgePrecommit(x, b, Sum(Byz)))
+   /\ UNCHANGED dlv
 AtIndex(i) == { m \in Honest : nd[m].idx = i /\ nd[m].cm = Nil }
 Quiescent(i) == \A m \in AtIndex(i) : /\ nd[m].step = 4
                                       /\ \A v \in msgs : (v.i = i /\ v.from # m) => v \in dlv[m]
@@ -118,7 +132,7 @@ Step2(n, S) == LET x == nd[n] IN
    /\ LET b == IF x.cur \notin {Nil, E} THEN x.cur ELSE IF S = {} THEN Nil ELSE Best(S) IN
       IF b = Nil THEN Put(n, [x EXCEPT !.step = 2])
       ELSE Put(n, JudgePrevote([x EXCEPT !.step = 2, !.first["Prevote"][n] = b,
-                                        !.out = {[from |-> n, k |-> "Prevote", i |-> x.idx, b |-> b]}], n, b))
+                                        !.out = {[from |-> n, k |-> "Prevote", i |-> x.idx, b |-> b]}], n, b, 0))
    /\ UNCHANGED dlv
 
 \* updateContext, step Precommit/Certificate :267 -- next-index vote for the marked block or the empty hash
@@ -137,6 +151,7 @@ Deliver(n, m) == LET x == nd[n] IN
 \* processTimeout / NextRound :385 and the voter's reset at a new index :203
 Timeout(n) == LET x == nd[n] IN
    /\ x.cm = Nil /\ x.idx < MaxI
+   /\ TimerOrder => x.step = 4
    /\ Sync => Quiescent(x.idx)
    /\ nd' = [nd EXCEPT ![n] = [FreshNode EXCEPT !.idx = x.idx + 1, !.cur = x.nv]]
    /\ UNCHANGED <<msgs, dlv>>
@@ -145,6 +160,7 @@ Init == nd = [n \in Honest |-> FreshNode] /\ msgs = {} /\ dlv = [n \in Honest |-
 Next == \E n \in Honest : \/ Step4(n) \/ Timeout(n)
                           \/ \E S \in SUBSET Blocks : Step2(n, S)
                           \/ \E m \in msgs \cup ByzVotes : Deliver(n, m)
+                          \/ \E k \in K2, b \in Blocks : ByzHelp(n, k, b)
 Spec == Init /\ [][Next]_vars
 
 \* liveness configuration: weak fairness of every honest step and of the delivery of every honest vote
